@@ -108,8 +108,19 @@ impl<T: Repr + Send + Sync + 'static> Probe<T> {
             }
             *s = true;
         }
-        let _f = self.world.enter(self.edge, Dir::Up, Kind::Handshake, Val::none(), -1);
-        source(Message::Handshake(self.sink()));
+        // upstream subscriptions made on behalf of this subscription belong to it, also when it is
+        // made from inside a handler of another subscription
+        let prev = {
+            let mut g = self.world.lock();
+            let p = g.owner;
+            g.owner = self.idx as i32;
+            p
+        };
+        {
+            let _f = self.world.enter(self.edge, Dir::Up, Kind::Handshake, Val::none(), -1);
+            source(Message::Handshake(self.sink()));
+        }
+        self.world.lock().owner = prev;
     }
 
     fn on_message(self: &Arc<Self>, message: Message<T, Never>) {
